@@ -31,11 +31,12 @@ def main():
         if rc != 0:
             print("stock suite fails with the change:\n", out[-1500:]); return 1
         shutil.copy(demo, os.path.join(d, "seed_demo_test.go"))
-        rc, out = mut.sh(["go", "test", "-vet=off", "-count=1", "-run", "TestSeedDemo", "."], cwd=d, timeout=1200)
+        race = ["-race"] if os.environ.get("SEED_RACE") else []
+        rc, out = mut.sh(["go", "test", "-vet=off", "-count=1"] + race + ["-run", "TestSeedDemo", "."], cwd=d, timeout=1200)
         meta["demo_with_change"] = "fails" if rc != 0 else "PASSES"
         demo_out = out[-1200:]
         mut.sh(["git", "apply", "-R", patch], cwd=d)
-        rc2, out2 = mut.sh(["go", "test", "-vet=off", "-count=1", "-run", "TestSeedDemo", "."], cwd=d, timeout=1200)
+        rc2, out2 = mut.sh(["go", "test", "-vet=off", "-count=1"] + race + ["-run", "TestSeedDemo", "."], cwd=d, timeout=1200)
         meta["demo_without_change"] = "passes" if rc2 == 0 else "FAILS"
         if rc == 0 or rc2 != 0:
             print("demonstration does not discriminate:", meta, demo_out, out2[-800:]); return 1
